@@ -75,7 +75,15 @@ def run_dry_table(run, binary, base):
                                 before = e2e.snapshot(box)
                                 r = e2e.run_cli(binary, [sp, dp, '--dest-root-needs-deleting', 'delete', '--dest-file-newer', 'overwrite'] + (['--dry-run'] if dry else []), timeout=60)
                                 after = e2e.snapshot(box)
-                                res.append((r['exit'], before == after, [k for k in set(before) | set(after) if before.get(k) != after.get(k)][:4], (r['stdout'] + r['stderr'])[-400:]))
+                                text = r['stdout'] + r['stderr']
+                                named = []
+                                for line in text.splitlines():
+                                    if 'Would' in line:
+                                        q = re.findall(r"'([^']*)'", line)
+                                        if q:
+                                            named.append(os.path.relpath(q[-1].rstrip('/') or '/', box))
+                                changed = sorted(k for k in set(before) | set(after) if before.get(k) != after.get(k))
+                                res.append((r['exit'], before == after, changed[:4], text[-400:], named, changed))
                             finally:
                                 shutil.rmtree(root, ignore_errors=True)
                         cell = [sk, ss, dk, ds, depth]
@@ -84,6 +92,11 @@ def run_dry_table(run, binary, base):
                         if not res[0][1]:
                             run.fail('C05 (table cell src=%s%s dest=%s%s, %d missing ancestors): the dry run changed %s' % (sk, '/' if ss else '', dk, '/' if ds else '', depth, res[0][2]),
                                      {'family': 'drytable', 'cell': cell, 'text': res[0][3]})
+                        elif res[0][0] == 0 and res[1][0] == 0 and any(n not in res[1][5] for n in res[0][4]):
+                            # every entry a "Would ..." line names is an entry the real run then creates, replaces or deletes
+                            bad = [n for n in res[0][4] if n not in res[1][5]]
+                            run.fail('C05 (table cell %s): the dry run names %s, the real run changed %s' % (cell, bad[:3], res[1][5][:6]),
+                                     {'family': 'drytable', 'cell': cell, 'dry_text': res[0][3], 'real_changed': res[1][5][:10]})
                         elif (res[0][0] == 0) != (res[1][0] == 0):
                             run.fail('C05 (table cell %s): dry run exit %s but real run exit %s' % (cell, res[0][0], res[1][0]), {'family': 'drytable', 'cell': cell, 'dry_text': res[0][3], 'real_text': res[1][3]})
 
